@@ -216,8 +216,8 @@ fn chunk_suffix<const B: usize, const TERM: bool, const N: usize>() {
  "bound": "waiting for the CRLF after a chunk ({3}), {0} byte(s) of it already seen; a write of exactly {2} bytes, symbolic contents",
  "desc": "one transition of the chunk-terminator state equals the reference: exactly the missing terminator bytes are consumed, the rest of the write is returned, garbage is rejected, the terminating chunk ends the client's stream",
  "encodes": ["http_forwarded_stream::ForwardedStreamSink::on_encoded_chunk_suffix"],
- "quick": "[(0,'false',1,'data'),(0,'false',2,'data'),(0,'false',4,'data'),(1,'false',1,'data'),(1,'false',3,'data'),(0,'true',2,'last'),(1,'true',1,'last'),(0,'true',4,'last')]",
- "thorough": "[(1,'true',3,'last'),(0,'true',1,'last'),(1,'false',2,'data'),(0,'false',3,'data')]"}
+ "quick": "[(0,'false',1,'data'),(0,'false',2,'data'),(0,'false',4,'data'),(1,'false',1,'data'),(1,'false',3,'data'),(0,'true',1,'last'),(0,'true',2,'last'),(1,'true',1,'last'),(0,'true',4,'last')]",
+ "thorough": "[(1,'true',3,'last'),(1,'false',2,'data'),(0,'false',3,'data')]"}
 @*/
 
 // ---------------------------------------------------------------------------------------------
